@@ -17,13 +17,18 @@ SeqPlans == [Procs -> UNION {[1..n -> Keys] : n \in 1..4}]
 NoZeroKeys == {{}}
 AnyZeroKeys == SUBSET Keys
 SomeZeroKeys == {{}, {K0}}
+(* which keys' constructor invocation panics (at most one faulty key per behaviour) *)
+NoPanicKeys == {{}}
+OnePanicKey == {{}} \cup {{k} : k \in Keys}
+K0PanicKey == {{}, {K0}}
 (* one or two Gets *)
 MixedPlans == [Procs -> {<<k>> : k \in Keys} \cup {<<k1, k2>> : k1 \in Keys, k2 \in Keys}]
 
 (* Refinement: the fine-grained Get implements the abstract once-map. *)
 AbsStore == [k \in Keys |-> IF conval[k] = {} THEN 0 ELSE CHOOSE v \in conval[k] : TRUE]
+AbsBad   == [k \in Keys |-> \E l \in failed : lkey[l] = k]
 AbsPend  == [p \in Procs |-> IF InGet(p) THEN Key(p) ELSE "-"]
 Abs == INSTANCE OnceAbs WITH AProcs <- Procs, AKeys <- Keys, NoKey <- "-", AVals <- 0..16,
-                             store <- AbsStore, pend <- AbsPend, cons <- ncons
+                             store <- AbsStore, pend <- AbsPend, cons <- ncons, bad <- AbsBad
 AbsSpec == Abs!ASpec
 =============================================================================
